@@ -286,18 +286,22 @@ impl Game {
                 .expect("Invalid regex")
                 .captures_iter(pgn_moves_part)
                 .nth(0)
-                .map(|x| x.get(0).unwrap())
-                .ok_or(Error::InvalidPGNString)?;
+                .map(|x| x.get(0).unwrap().as_str());
 
-            match result_cap.as_str() {
-                "1-0" => game.make_move(&Action::Resign(Black)).unwrap(),
-                "0-1" => game.make_move(&Action::Resign(White)).unwrap(),
-                "1/2-1/2" => game
-                    .make_move(&Action::OfferDraw(White))
-                    .unwrap()
-                    .make_move(&Action::AcceptDraw)
-                    .unwrap(),
-                _ => return Err(Error::InvalidPGNString),
+            match result_cap {
+                Some("1-0") => {
+                    game.make_move(&Action::Resign(Black)).unwrap();
+                }
+                Some("0-1") => {
+                    game.make_move(&Action::Resign(White)).unwrap();
+                }
+                Some("1/2-1/2") => {
+                    game.make_move(&Action::OfferDraw(White))
+                        .unwrap()
+                        .make_move(&Action::AcceptDraw)
+                        .unwrap();
+                }
+                _ => {} // no result: the game is not finished yet
             };
         }
 
